@@ -30,13 +30,17 @@ PROPS = {
         "theorems": CORE + APPLY + [
             "Meddly.DD.union_eval", "Meddly.DD.inter_eval", "Meddly.DD.diff_eval", "Meddly.DD.compl_eval",
             "Meddly.DD.union_red",
+            "Meddly.DD.unionS_eq_apply2", "Meddly.DD.interS_eq_apply2", "Meddly.DD.diffS_eq_apply2", "Meddly.DD.complS_eq_apply1",
+            "Meddly.DD.unionShortcut_sound", "Meddly.DD.interShortcut_sound", "Meddly.DD.diffShortcut_sound",
+            "Meddly.DD.unionFull_eq_apply2", "Meddly.DD.interFull_eq_apply2", "Meddly.DD.diffFull_eq_apply2",
+            "Meddly.DD.applySkip_eq_apply2",
         ],
         "quick": [fam("setops")],
         "thorough": [fam("setops", "asan")],
         "design_ref": "DESIGN.md §5 C04",
         "partial": [],
         "level_text": "Lean theorems union_eval/inter_eval/diff_eval/compl_eval: the model's apply (position-wise recursion + createReducedNode) denotes the pointwise Boolean operator for every domain, every triple of reduction rules and every operand; apply2_unique + DD.canon: any reduced result with that denotation is that tree. Tie: differential runs of the real UNION/INTERSECTION/DIFFERENCE/COMPLEMENT over random domains, all forest triples and aliasing patterns, cold and warm caches, against the pointwise oracle, operands re-read afterwards.",
-        "level_note": "Theorems are about the Lean tree model; the tie to /repo is the sampled correspondence run (harness setops + Lean driver). Compute-table transparency is C07's subject; terminal shortcuts of union.cc etc. are covered by the differential run, not by a theorem.",
+        "level_note": "Theorems are about the Lean tree model; the tie to /repo is the sampled correspondence run (harness setops + Lean driver: table oracle AND structural equality of the real result with the model's apply2 on the dumped operands). The terminal shortcuts and level-skipping patterns of union.cc / intersection.cc / difference.cc / complement.cc are transcribed case by case (Ops/Shortcuts.lean) and each proved to return exactly apply2's tree; the transcription is by hand. Compute-table transparency is C07's subject. CROSS is covered by the table oracle only.",
         "technique": "Lean 4 proof (induction on positions) + differential correspondence with pointwise oracle",
     },
     "C19": {
@@ -89,25 +93,28 @@ PROPS = {
         "title": "Canonicity",
         "theorems": CORE + ["Meddly.DD.canon_gen", "Meddly.DD.zero_unique", "Meddly.Dump.unfold_fuel",
                             "Meddly.Dump.check_sound_node", "Meddly.DD.apply2_unique", "Meddly.DD.apply1_unique",
-                            "Meddly.DD.apply2_red_top", "Meddly.DD.mkNode_red"],
+                            "Meddly.DD.apply2_red_top", "Meddly.DD.mkNode_red",
+                            "Meddly.EDD.canon", "Meddly.EDD.edge_value_is_min", "Meddly.EDD.mkNodeEV_eval", "Meddly.EDD.mkNodeEV_red",
+                            "Meddly.EDump.check_sound", "Meddly.EDump.unfold_inj", "Meddly.EDump.check_canon", "Meddly.EDump.evalFast_eq"],
         "quick": [fam("canon")],
         "thorough": [fam("canon", "asan")],
         "leanchecker": ["MeddlyModel.Core.Canon", "MeddlyModel.Core.Dump"],
         "level_text": "DD.canon: two reduced trees (fully / quasi / identity rule, any domain with sizes >= 2, any terminal type) denote the same function iff they are the same tree; Dump.check_sound + Dump.unfold_inj: a dump of the real node store accepted by the verified checker unfolds injectively into reduced trees, so in THAT real state every two edges are equal iff they denote the same function (all assignments, not the sampled ones); mkNode_red/apply*_red: the model's createReducedNode and apply keep the reduced form. Tie: every quiescent state of random histories is dumped and certified; the same function is built along 5 different paths (minterm orders, op chains, copies through other forests, after GC and handle reuse) and the observed == partition must equal the partition by evaluation table.",
-        "level_note": "Proved for multi-terminal forests; EV+ / EV* forests are covered by the structural recount, the model evaluation of the dump and the == partition, not by Dump.check (their normal-form theorem is not written). Real-valued comparisons in the library are approximate (1e-6 relative): generators stay on an exactness-safe grid; rounding coincidences are not modelled. The unique table's hashing is observed only through its effect (duplicates in the dump).",
+        "level_note": "Proved for multi-terminal forests (DD.canon) and for EV+ forests (EDD.canon: normalised edge values, value of a reduced edge = minimum of its denotation; EDump.check_sound for dumps); EV* (real, multiplicative) forests are covered by the structural recount, the == partition and evaluation only. Real-valued comparisons in the library are approximate (1e-6 relative): generators stay on an exactness-safe grid; rounding coincidences are not modelled. The unique table's hashing is observed only through its effect (duplicates in the dump).",
         "technique": "Lean 4 proof (canonical form uniqueness by induction on positions) + verified certificate checker run on dumps of the real forest + differential build-path comparison",
-        "partial": ["EV+/EV* normal form not proved (checked differentially)", "hash_agree / ut_find_spec not modelled"],
+        "partial": ["EV* normal form not proved (floating point; checked differentially)", "hash_agree / ut_find_spec not modelled", "EV+ edge arithmetic over unbounded Int (no 64-bit wrap)"],
     },
     "C02": {
         "title": "Every stored node obeys the reduction rule",
-        "theorems": CORE + ["Meddly.Dump.check_sound_node", "Meddly.Dump.red_of_node", "Meddly.DD.Red_WFTree"],
+        "theorems": CORE + ["Meddly.Dump.check_sound_node", "Meddly.Dump.red_of_node", "Meddly.DD.Red_WFTree",
+                            "Meddly.EDump.check_sound", "Meddly.EDump.check_sound_node", "Meddly.EDump.unfold_inj"],
         "quick": [fam("canon"), fam("setops")],
         "thorough": [fam("canon", "asan"), fam("setops", "asan")],
         "leanchecker": ["MeddlyModel.Core.Dump"],
         "level_text": "The executable certificate checker Dump.check (no duplicate content, children strictly below and live, node-local reduction conditions, per-edge skipping conditions, root conditions) is proved sound: an accepted dump unfolds to trees in reduced form (Dump.check_sound, check_sound_node). It is run on a dump of EVERY active node of the real forest (public node-inspection API, full view) at every quiescent point of generated histories, for every MT forest kind and random storage / memory-manager / deletion policies; reported node count must equal the number of live nodes.",
-        "level_note": "The checker's completeness (never rejects a good state) is not proved; it is supported by clean runs at many seeds. Sparse/full view agreement and hashing are checked only through unique-table effects. EV forests: structural recount + model evaluation only.",
+        "level_note": "The checker's completeness (never rejects a good state) is not proved; it is supported by clean runs at many seeds. Sparse/full view agreement and hashing are checked only through unique-table effects. EV+ forests use the verified EDump.check; EV* forests: structural recount + model evaluation only.",
         "technique": "verified certificate checker (Lean 4 soundness proof) applied to dumps of the real node store",
-        "partial": ["full/sparse view agreement and hash equality not dumped", "EV forests: no verified normal-form checker"],
+        "partial": ["full/sparse view agreement and hash equality not dumped", "EV* forests: no verified normal-form checker"],
     },
     "C12": {
         "title": "Results do not depend on storage, memory-manager or deletion policy",
@@ -134,6 +141,22 @@ PROPS = {
         "level_note": "Paired (every creation/destruction of a reference carries its link/unlink) is the legality of the model run; on the implementation it is checked by the recount certificate, not assumed. A C++-level use-after-free cannot be exhibited by the theorem: the thorough tier runs the ASan flavour. Which free handle is picked is nondeterminism of the model. 'never delete' is indistinguishable from optimistic in the code and is mapped so.",
         "technique": "Lean 4 proof (invariants by induction over op lists, refinement) + step-by-step differential run on a real forest + recount certificate on dumps",
         "partial": ["mark-and-sweep forests not covered", "EV/quasi/identity forests only through the canon-family recount"],
+    },
+    "C17": {
+        "title": "Library, domain and forest lifecycles are safe in any order",
+        "theorems": ["Meddly.Lifecycle." + t for t in [
+            "fid_fresh", "fid_fresh_unmentioned", "fid_never_reused", "fid_restart",
+            "destroy_detaches_forest", "destroy_detaches_domain", "destroy_purges", "no_dangling",
+            "others_untouched_forest", "others_untouched_domain", "att_frame",
+            "detached_use_errors", "detached_use_errors_exact", "detached_evaluate_errors",
+            "reinit_clean", "init_cleanup_outcomes", "init_cleanup_roundtrip", "uninitialized_errors"]],
+        "quick": [fam("lifecycle")],
+        "thorough": [fam("lifecycle", "asan")],
+        "leanchecker": ["MeddlyModel.State.Lifecycle"],
+        "level_text": "Deterministic Lifecycle state machine (running flag, domains, forests with FIDs, edges with attachment, iterators, built operations, live cache entries by the forests they mention) whose step function gives the outcome of every API call including the error codes. Theorems for every reachable state / every op list: FIDs strictly increase within one initialisation and are never reused, destroying a forest or domain detaches exactly the edges attached to the affected forests, purges every operation and cache entry mentioning them and leaves everything of other domains untouched, any use of a detached edge errors without changing state, cleanup returns to the initial state, init/cleanup can be repeated. Tie: random create/destroy histories (<=3 domains, <=6 forests, <=20 heap-allocated edges, iterators, cross-forest operations filling the compute table, all CT configurations, repeated init/cleanup) with the full observable state (attachment and table of every edge, registered edge counts, FIDs, surviving operations, stale entry types, live cache entries per forest set, error codes) compared with the model after EVERY step.",
+        "level_note": "Function contents are not predicted by this model (tables must be unchanged unless the step writes the edge). Freed-memory accesses are visible only in the ASan flavour (thorough tier). Three genuine defects are exhibited by forked probes: iterator on a detached edge (repaired by a fix: commit), re-initialisation with an operation-style table, use-after-free in removeAllComputeTableEntries after destroying a forest of a cross-forest operation (both recorded in known_findings.jsonl; the generator steers around their triggers).",
+        "technique": "Lean 4 proof (invariants by induction over op lists of a deterministic state machine) + step-by-step differential run",
+        "partial": ["iterator surviving cleanup+initialize not exercised (not documented as legal)", "lazy physical removal of dead cache entries treated as destroyed"],
     },
 }
 
